@@ -73,6 +73,59 @@ def fam_cv(rng):
     return lines
 
 
+def fam_waitn_mon(rng):
+    """C11: 'the mutex is released while waiting, AFTER registration on every object'.  Monitor pattern: the
+    nsync_wait_n caller sets x0 under the mutex and waits (no deadline) on 1..5 objects of which only a condition
+    variable will ever become ready; the signaller enters a conditional critical section on x0 == 1 — so it runs
+    only once the caller has released the mutex inside nsync_wait_n — and signals under the mutex.  The wake-up
+    can be missed only if the mutex was released before the registration on the cv."""
+    k = rng.choice([1, 2, 3, 4, 5, 5, 5])
+    pos = rng.randrange(k)
+    objs = [rng.choice(["n0", "k0", "n0"]) for _ in range(k)]
+    objs[pos] = "cv0"
+    rd = rng.random() < 0.3
+    lines = ["sem %s" % rng.choice(["counting", "binary"]), "objs mu=1 cv=1 var=1", "var x0 0 mu0", "cond c0 eq x0 1",
+             "pre note_new n0 - inf ; ctr_new k0 1"]
+    lines.append("fiber lock mu0 ; wr x0 1 ; unlock mu0 ; %s mu0 ; waitn mu0 inf %s ; %s mu0" % ("rlock" if rd else "lock", " ".join(objs), "runlock" if rd else "unlock")
+                 if rd else "fiber lock mu0 ; wr x0 1 ; waitn mu0 inf %s ; unlock mu0" % " ".join(objs))
+    if rd:
+        # reader-mode caller: the flag is set in an earlier write section, so the signaller must ALSO wait for the
+        # caller to be inside nsync_wait_n: it cannot tell; give the caller a deadline-free retry instead (skip rd)
+        lines[-1] = "fiber lock mu0 ; wr x0 1 ; waitn mu0 inf %s ; unlock mu0" % " ".join(objs)
+    lines.append("fiber " + " ; ".join(["yield"] * rng.randrange(0, 3) + ["lock mu0", "muwait mu0 c0 inf", rng.choice(["signal cv0", "broadcast cv0"]), "unlock mu0"]))
+    if rng.random() < 0.3:
+        lines.append("fiber yield ; is_notified n0 ; ctr_value k0")
+    return lines
+
+
+def fam_cancel_only(rng):
+    """C05 / C13: waits that ONLY their cancel note (explicit notify, the note's own deadline, or a parent's) or
+    their own deadline can end: nobody signals the cv or makes the condition true.  'Once the note is notified the
+    call needs no further wake-up': a wait that misses the cancellation stays asleep (stuck)."""
+    kind = rng.choice(["cv", "cv", "mu", "both"])
+    parent = rng.random() < 0.3
+    pre = []
+    if parent:
+        pre.append("note_new n1 - %s" % rng.choice(["inf", "p4000", "p70000"]))
+        pre.append("note_new n0 n1 %s" % rng.choice(["inf", "inf", "p90000"]))
+    else:
+        pre.append("note_new n0 - %s" % rng.choice(["inf", "inf", "p4000", "p70000"]))
+    lines = ["sem %s" % rng.choice(["counting", "binary"]), "objs mu=1 cv=1 var=1", "var x0 0 mu0", "cond c0 eq x0 1", "cond c1 eq x0 1 eq",
+             "pre " + " ; ".join(pre)]
+    for i in range(rng.choice([1, 2, 2, 3])):
+        rd = rng.random() < 0.35
+        dl = rng.choice(["inf", "inf", "inf", "p200000", "p1000"])
+        k = kind if kind != "both" else rng.choice(["cv", "mu"])
+        w = ("await cv0 mu0 x0 1 %s n0" % dl) if k == "cv" else ("muwait mu0 %s %s n0" % (rng.choice(["c0", "c1"]), dl))
+        ops = ["yield"] * rng.randrange(0, 3) + ["rlock mu0" if rd else "lock mu0", w, "runlock mu0" if rd else "unlock mu0"]
+        lines.append("fiber " + " ; ".join(ops))
+    tgt = "n1" if parent and rng.random() < 0.5 else "n0"
+    lines.append("fiber " + " ; ".join(["yield"] * rng.randrange(0, 5) + ["notify " + tgt]))
+    if rng.random() < 0.3:
+        lines.append("fiber " + " ; ".join(["yield"] * rng.randrange(0, 3) + ["lock mu0", "rd x0", "unlock mu0", "is_notified n0"]))
+    return lines
+
+
 def fam_cv_raw(rng):
     """Plain cvwait calls (Mesa: may return spuriously) with deadlines so nothing blocks for good."""
     nf = rng.choice([2, 3])
@@ -133,6 +186,45 @@ def fam_waitn_cv(rng):
         lines.append("fiber " + " ; ".join(["yield"] * rng.randrange(0, 3) + [rng.choice(["broadcast cv0", "signal cv0", "broadcast cv1"])] ))
     lines.append("fiber yield ; yield ; broadcast cv0 ; broadcast cv1")
     lines.append("expect stuck-ok")
+    return lines
+
+
+def fam_waitn_rep(rng):
+    """C11 / C13: the same fiber calls nsync_wait_n repeatedly over the same objects (its stack records are
+    re-used from call to call) while wakers make the objects ready during, between and after the calls: any
+    registration left behind by a call is written to when the object is made ready later."""
+    ncv = rng.choice([1, 2])
+    lines = ["sem %s" % rng.choice(["counting", "binary"]), "objs mu=1 cv=%d var=1" % ncv, "var x0 0 mu0",
+             "pre note_new n0 - inf ; note_new n1 - %s ; ctr_new k0 %d" % (rng.choice(["inf", "p60000", "p2000"]), rng.choice([1, 2]))]
+    pool = ["cv0", "n0", "n1", "k0"] + (["cv1"] if ncv == 2 else [])
+    for _ in range(rng.choice([1, 1, 2])):
+        withmu = rng.random() < 0.5
+        ops = ["lock mu0"] if withmu else []
+        for _ in range(rng.choice([2, 3])):
+            k = rng.choice([1, 2, 3, 4, 5])
+            objs = [rng.choice(pool) for _ in range(k)]
+            dl = rng.choice(["p1000", "p30000", "p90000", "m5", "p200000"])
+            ops.append("waitn %s %s %s" % ("mu0" if withmu else "-", dl, " ".join(objs)))
+            if rng.random() < 0.3: ops.append("yield")
+        if withmu: ops.append("unlock mu0")
+        lines.append("fiber " + " ; ".join(ops))
+    wk = ["signal cv0", "broadcast cv0", "notify n0", "ctr_add k0 -1", "yield", "yield"] + (["broadcast cv1"] if ncv == 2 else [])
+    for _ in range(rng.choice([1, 2])):
+        ops = [rng.choice(wk) for _ in range(rng.choice([2, 3, 4]))]
+        # the counter must not go below zero (API contract): at most one decrement per waker fiber, initial value >= 1 … keep one in total
+        seen = False; out = []
+        for o in ops:
+            if o.startswith("ctr_add"):
+                if seen: continue
+                seen = True
+            out.append(o)
+        lines.append("fiber " + " ; ".join(out))
+    # only one fiber may decrement
+    dec = [i for i, l in enumerate(lines) if "ctr_add" in l]
+    for i in dec[1:]:
+        lines[i] = lines[i].replace("ctr_add k0 -1", "yield")
+    if rng.random() < 0.5:
+        lines.append("fiber lock mu0 ; wr x0 1 ; broadcast cv0 ; unlock mu0 ; notify n1")
     return lines
 
 
@@ -282,7 +374,7 @@ except Exception:
     _gm = None
 
 FAMILIES = {"alloc_fail": fam_alloc_fail, "note": _gn.fam_note, "note_f4": _gn.fam_note_f4, "note_f4b": _gn.fam_note_f4b, "note_f7": _gn.fam_note_f7, "refcount": fam_refcount, "starve": fam_starve, "cv_rsignal": fam_cv_rsignal, "ctr": fam_ctr, "once": fam_once, "futex": fam_futex,"core": fam_core, "cv": fam_cv, "cv_raw": fam_cv_raw, "muwait": fam_muwait, "debug": fam_debug,
-            "waitn_cv": fam_waitn_cv, "mixed": fam_mixed}
+            "waitn_cv": fam_waitn_cv, "waitn_rep": fam_waitn_rep, "waitn_mon": fam_waitn_mon, "cancel_only": fam_cancel_only, "mixed": fam_mixed}
 
 
 if _gw is not None:
